@@ -124,13 +124,27 @@ func mustEstablish(fn *ssa.Function, pi int) []string {
 				continue
 			}
 			via[e.ins.Block()] = true
+			// Reset under a nil guard of the same pointer field: the nil branch needs no reset
+			if e.kind == "reset-call" {
+				if g := nilGuardBlock(e.ins); g != nil {
+					via[g] = true
+				}
+			}
 		}
 		if len(via) == 0 {
 			continue
 		}
 		all, nret := true, 0
 		for _, b := range fn.Blocks {
-			if _, ok := b.Instrs[len(b.Instrs)-1].(*ssa.Return); ok {
+			if ret, ok := b.Instrs[len(b.Instrs)-1].(*ssa.Return); ok {
+				// a return that reports a failure does not count: the caller fails as well
+				// (that it does is ERR-FLOW's business)
+				if n := len(ret.Results); n > 0 && isErrorType(ret.Results[n-1].Type()) {
+					ev := resolveLoad(ret.Results[n-1])
+					if !isNilConst(ev) && (knownNonNilAt(ev, b) || nonNilErrorValue(ev)) {
+						continue
+					}
+				}
 				nret++
 				if !coveredOnAllPaths(fn, via, b) {
 					all = false
@@ -197,6 +211,36 @@ func fullRangeZeroLoop(fn *ssa.Function, targets map[ssa.Value]bool, field strin
 								}
 							}
 						}
+					}
+				}
+			}
+		}
+	}
+	return false, ""
+}
+
+// fullRangeZeroLoopDeep: the loop is in fn or in a helper fn hands the object to.
+func fullRangeZeroLoopDeep(c *Ctx, fn *ssa.Function, targets map[ssa.Value]bool, field string, depth int) (bool, string) {
+	if ok, how := fullRangeZeroLoop(fn, targets, field); ok {
+		return true, how
+	}
+	if depth >= 2 {
+		return false, ""
+	}
+	for _, b := range fn.Blocks {
+		for _, ins := range b.Instrs {
+			ci, ok := ins.(ssa.CallInstruction)
+			if !ok {
+				continue
+			}
+			sc := ci.Common().StaticCallee()
+			if sc == nil || !c.inRoot(sc) || sc.Blocks == nil {
+				continue
+			}
+			for ai, a := range ci.Common().Args {
+				if targets[a] && ai < len(sc.Params) {
+					if ok, how := fullRangeZeroLoopDeep(c, sc, targetsOf(sc, ai), field, depth+1); ok {
+						return true, how + " (in " + fnName(sc) + ")"
 					}
 				}
 			}
@@ -372,6 +416,10 @@ func init() {
 							}
 							continue
 						}
+						if len(ev[f]) == 0 && writeBeforeReadScratch(c, st.Field(i)) {
+							r.ok(key, sp.fn, c.pos(fn.Pos()), "not reset: a fixed-size scratch array that every user fills (encoding/binary Put*, copy) before reading the filled part")
+							continue
+						}
 						if len(ev[f]) == 0 {
 							r.bad(key, sp.fn, c.pos(fn.Pos()), "field "+f+" of "+sp.typ+" is not re-established by "+sp.fn+" (no store, no Reset): its value carries over to the next use")
 							continue
@@ -422,8 +470,10 @@ func init() {
 				}
 				for _, f := range sp.zeroAll {
 					key := sp.fn + "/zero-all-" + f
-					if ok, how := fullRangeZeroLoop(fn, targets, f); ok {
+					if ok, how := fullRangeZeroLoopDeep(c, fn, targets, f, 0); ok {
 						r.ok(key, sp.fn, c.pos(fn.Pos()), "retained elements of "+f+" are sanitised: "+how)
+					} else if n, all := reExtensionSites(c, sp.typ, f); n > 0 && all {
+						r.ok(key, sp.fn, c.pos(fn.Pos()), fmt.Sprintf("retained elements of %s are not cleared here but at each of the %d place(s) that re-extend the slice, over the whole new range", f, n))
 					} else {
 						r.bad(key, sp.fn, c.pos(fn.Pos()), "the retained elements of "+sp.typ+"."+f+" are not sanitised over the slice's whole range by "+sp.fn+" (they become visible again when the slice is re-extended)")
 					}
@@ -602,6 +652,33 @@ func init() {
 						if owner == nil || owner.Obj() != it {
 							continue
 						}
+						if call, isCall := st.Val.(*ssa.Call); isCall {
+							// s.F = helper(s.F, n) with a helper that re-slices its parameter upwards
+							if sc := call.Call.StaticCallee(); sc != nil && c.inRoot(sc) && sc.Blocks != nil {
+								for ai, a := range call.Call.Args {
+									ld, ok := a.(*ssa.UnOp)
+									if !ok || ld.Op != token.MUL || ai >= len(sc.Params) {
+										continue
+									}
+									if fa2, ok := ld.X.(*ssa.FieldAddr); !ok || fa2.Field != fa.Field || accessPath(fa2.X) != accessPath(fa.X) {
+										continue
+									}
+									ext := helperReExtends(sc, sc.Params[ai])
+									if ext == nil {
+										continue
+									}
+									key := fnName(fn) + "/" + f.Name()
+									if ok, how := fullRangeZeroLoopDeep(c, reset, rtargets, f.Name(), 0); ok {
+										r.ok(key, fnName(fn), c.pos(st.Pos()), "re-extension of "+f.Name()+" (in "+fnName(sc)+"): retained elements are sanitised in reset() ("+how+")")
+									} else if helperClearsWhole(sc, ext) {
+										r.ok(key, fnName(fn), c.pos(st.Pos()), "re-extension of "+f.Name()+": "+fnName(sc)+" clears every element of the re-extended slice before returning it")
+									} else {
+										r.undecided(key, fnName(fn), c.pos(st.Pos()), "pooled slice "+f.Name()+" is re-extended into retained capacity by "+fnName(sc)+" and nothing sanitises the exposed elements (no whole-range loop in reset(), the helper does not clear the re-extended range)")
+									}
+								}
+							}
+							continue
+						}
 						sl, ok := st.Val.(*ssa.Slice)
 						if !ok || sl.High == nil {
 							continue
@@ -620,7 +697,7 @@ func init() {
 						}
 						key := fnName(fn) + "/" + f.Name()
 						name := f.Name()
-						if ok, how := fullRangeZeroLoop(reset, rtargets, name); ok {
+						if ok, how := fullRangeZeroLoopDeep(c, reset, rtargets, name, 0); ok {
 							r.ok(key, fnName(fn), c.pos(st.Pos()), "re-extension of "+name+": retained elements are sanitised in reset() ("+how+")")
 							continue
 						}
@@ -925,7 +1002,9 @@ func init() {
 					default:
 						labels = p.ClassifyAt(w.cont, w.ins.Block())
 					}
-					if n, ok := hasPrefixLabel(labels, "Global:"); ok && !once {
+					if n, ok := hasPrefixLabel(labels, "Global:"); ok && !once && w.glob != nil && lazySingletonStore(c, fn, w.ins, w.glob) {
+						r.ok(key, fnName(fn), c.pos(w.ins.Pos()), "package-level "+n+" is created once (stored only while it is nil, under a package-level lock): the same for every build thereafter")
+					} else if n, ok := hasPrefixLabel(labels, "Global:"); ok && !once {
 						r.bad(key, fnName(fn), c.pos(w.ins.Pos()), "the build path writes package-level state ("+n+"): builds are no longer independent of history/concurrency", labels[n])
 					} else if labels.has("Unknown") {
 						r.undecided(key, fnName(fn), c.pos(w.ins.Pos()), "cannot determine the target of this write: "+labels["Unknown"])
@@ -1136,3 +1215,252 @@ func earlyEmptyReader(b *ssa.BasicBlock) bool {
 }
 
 var _ = types.Universe
+
+// writeBeforeReadScratch: field fv is a fixed-size array of a basic type that
+// is only ever sliced, and in every function that touches it a filler call
+// (encoding/binary Put*, copy into it) on such a slice precedes every other
+// use: nothing of a previous use can be observed, so it needs no reset.
+func writeBeforeReadScratch(c *Ctx, fv *types.Var) bool {
+	arr, ok := fv.Type().Underlying().(*types.Array)
+	if !ok {
+		return false
+	}
+	if _, ok := arr.Elem().Underlying().(*types.Basic); !ok {
+		return false
+	}
+	isFiller := func(user ssa.Instruction, sl ssa.Value) bool {
+		ci, ok := user.(ssa.CallInstruction)
+		if !ok {
+			return false
+		}
+		if bi, ok := ci.Common().Value.(*ssa.Builtin); ok {
+			return bi.Name() == "copy" && ci.Common().Args[0] == sl
+		}
+		sc := ci.Common().StaticCallee()
+		if sc == nil {
+			return false
+		}
+		full := funcFullName(sc)
+		return strings.HasPrefix(full, "encoding/binary.Put") || strings.HasPrefix(full, "encoding/binary.(bigEndian).Put") || strings.HasPrefix(full, "encoding/binary.(littleEndian).Put")
+	}
+	used := false
+	for _, fn := range c.srcFns {
+		var fills, others []ssa.Instruction
+		for _, b := range fn.Blocks {
+			for _, ins := range b.Instrs {
+				fa, ok := ins.(*ssa.FieldAddr)
+				if !ok {
+					continue
+				}
+				if _, f := fieldAddrInfo(fa); f != fv {
+					continue
+				}
+				used = true
+				for _, ref := range *fa.Referrers() {
+					sl, ok := ref.(*ssa.Slice)
+					if !ok {
+						return false
+					}
+					for _, u := range *sl.Referrers() {
+						if isFiller(u, sl) {
+							fills = append(fills, u)
+						} else {
+							others = append(others, u)
+						}
+					}
+				}
+			}
+		}
+		for _, o := range others {
+			covered := false
+			for _, fl := range fills {
+				if before(fl, o) {
+					covered = true
+				}
+			}
+			if !covered {
+				return false
+			}
+		}
+	}
+	return used
+}
+
+// helperReExtends: fn returns its slice parameter p re-sliced with a
+// non-constant upper bound (p[:n]): that Slice.
+func helperReExtends(fn *ssa.Function, p *ssa.Parameter) *ssa.Slice {
+	for _, b := range fn.Blocks {
+		for _, ins := range b.Instrs {
+			sl, ok := ins.(*ssa.Slice)
+			if !ok || sl.X != ssa.Value(p) || sl.High == nil {
+				continue
+			}
+			if k, isK := constInt(sl.High); isK && k == 0 {
+				continue
+			}
+			for _, rb := range fn.Blocks {
+				if ret, ok := rb.Instrs[len(rb.Instrs)-1].(*ssa.Return); ok {
+					for _, res := range ret.Results {
+						if res == ssa.Value(sl) {
+							return sl
+						}
+					}
+				}
+			}
+		}
+	}
+	return nil
+}
+
+// helperClearsWhole: between the re-slice and the return that hands it out
+// every element of the RE-SLICED value is stored a zero value in a loop over
+// its whole length (a loop over the slice as it was before re-slicing does
+// not count: it stops at the old length).
+func helperClearsWhole(fn *ssa.Function, ext *ssa.Slice) bool {
+	for _, h := range fn.Blocks {
+		if !isLoopHeader(h) {
+			continue
+		}
+		ifi, ok := h.Instrs[len(h.Instrs)-1].(*ssa.If)
+		if !ok {
+			continue
+		}
+		bin, ok := ifi.Cond.(*ssa.BinOp)
+		if !ok || bin.Op != token.LSS {
+			continue
+		}
+		x, name, ok := lenOrCapOf(bin.Y)
+		if !ok || name != "len" || x != ssa.Value(ext) {
+			continue
+		}
+		if !(ext.Block() == h || ext.Block().Dominates(h)) {
+			continue
+		}
+		for b := range loopBody(h) {
+			for _, ins := range b.Instrs {
+				st, ok := ins.(*ssa.Store)
+				if !ok {
+					continue
+				}
+				ia, ok := st.Addr.(*ssa.IndexAddr)
+				if !ok || ia.X != ssa.Value(ext) || ia.Index != bin.X {
+					continue
+				}
+				if k, ok := st.Val.(*ssa.Const); ok && (k.Value == nil || k.Value.String() == "false" || k.Value.String() == "0") {
+					// the loop precedes every return of the re-sliced value
+					okAll := true
+					for _, rb := range fn.Blocks {
+						if ret, ok := rb.Instrs[len(rb.Instrs)-1].(*ssa.Return); ok {
+							for _, res := range ret.Results {
+								if res == ssa.Value(ext) && !h.Dominates(rb) {
+									okAll = false
+								}
+							}
+						}
+					}
+					if okAll {
+						return true
+					}
+				}
+			}
+		}
+	}
+	return false
+}
+
+// reExtensionSites: how many places re-extend pooled slice field f of typ, and
+// whether each of them clears the whole re-extended range itself.
+func reExtensionSites(c *Ctx, typ, f string) (int, bool) {
+	tn := c.NamedType(typ).Obj()
+	n, all := 0, true
+	for _, st := range c.census().fieldStores[fieldKey{tn, f}] {
+		store, ok := st.ins.(*ssa.Store)
+		if !ok {
+			continue
+		}
+		fa, ok := store.Addr.(*ssa.FieldAddr)
+		if !ok {
+			continue
+		}
+		switch v := st.val.(type) {
+		case *ssa.Slice:
+			if v.High == nil {
+				continue
+			}
+			if k, isK := constInt(v.High); isK && k == 0 {
+				continue
+			}
+			if ld, ok := v.X.(*ssa.UnOp); !ok || ld.Op != token.MUL {
+				continue
+			} else if fa2, ok := ld.X.(*ssa.FieldAddr); !ok || fa2.Field != fa.Field {
+				continue
+			}
+			n++
+			if !siteSanitised(store.Block(), store, fa) {
+				all = false
+			}
+		case *ssa.Call:
+			sc := v.Call.StaticCallee()
+			if sc == nil || !c.inRoot(sc) || sc.Blocks == nil {
+				continue
+			}
+			for ai, a := range v.Call.Args {
+				ld, ok := a.(*ssa.UnOp)
+				if !ok || ld.Op != token.MUL || ai >= len(sc.Params) {
+					continue
+				}
+				if fa2, ok := ld.X.(*ssa.FieldAddr); !ok || fa2.Field != fa.Field {
+					continue
+				}
+				if ext := helperReExtends(sc, sc.Params[ai]); ext != nil {
+					n++
+					if !helperClearsWhole(sc, ext) {
+						all = false
+					}
+				}
+			}
+		}
+	}
+	return n, all
+}
+
+// lazySingletonStore: the store to global g happens while a package-level
+// mutex is held and only when g is still nil - the lock-based spelling of
+// sync.Once for a shared object that is created on first use.
+func lazySingletonStore(c *Ctx, fn *ssa.Function, ins ssa.Instruction, g *ssa.Global) bool {
+	held := false
+	for id := range lockAnalyse(fn).must[ins] {
+		if c.SSA.Members[id] != nil {
+			held = true
+		}
+	}
+	if !held {
+		return false
+	}
+	for _, b := range fn.Blocks {
+		ifi, ok := b.Instrs[len(b.Instrs)-1].(*ssa.If)
+		if !ok {
+			continue
+		}
+		bin, ok := ifi.Cond.(*ssa.BinOp)
+		if !ok || (bin.Op != token.EQL && bin.Op != token.NEQ) {
+			continue
+		}
+		x, y := bin.X, bin.Y
+		if isNilConst(x) {
+			x, y = y, x
+		}
+		ld, ok := x.(*ssa.UnOp)
+		if !ok || !isNilConst(y) || ld.X != ssa.Value(g) {
+			continue
+		}
+		nilEdge := b.Succs[0]
+		if bin.Op == token.NEQ {
+			nilEdge = b.Succs[1]
+		}
+		if len(nilEdge.Preds) == 1 && (nilEdge == ins.Block() || nilEdge.Dominates(ins.Block())) {
+			return true
+		}
+	}
+	return false
+}
